@@ -459,14 +459,6 @@ int64_t cmi_pool_acquire_inner(struct cmb_resourcepool *rpp,
                 const bool found = cmi_process_remove_holdable(victim, hrp);
                 cmb_assert_debug(found == true);
 
-                /* Schedule a wakeup for it, but do not switch context yet. Take
-                 * it out of whatever it is waiting for right away (it may be
-                 * part-way through an acquisition from this very pool with a
-                 * grant or a timer about to resume it), and make the
-                 * notification the first thing that happens to it. */
-                cmi_process_cancel_awaiteds(victim);
-                cmb_process_interrupt(victim, CMB_PROCESS_PREEMPTED, INT64_MAX);
-
                  /* Split the loot */
                 if (loot < rem_claim) {
                     /* Add everything to our own holding */
@@ -479,6 +471,16 @@ int64_t cmi_pool_acquire_inner(struct cmb_resourcepool *rpp,
                     cmb_logger_info(stdout,
                                     "Got %" PRIu64 " from %s, still needs %" PRIu64 "",
                                     loot, victim->name, rem_claim);
+                    /* Schedule a wakeup for the victim, but do not switch
+                     * context yet. Take it out of whatever it is waiting for
+                     * right away (it may be part-way through an acquisition
+                     * from this very pool with a grant or a timer about to
+                     * resume it), and make the notification the first thing
+                     * that happens to it. Done only now that the books balance
+                     * again: cancelling its waits rings guard bells, and
+                     * observing conditions call user predicates from there. */
+                    cmi_process_cancel_awaiteds(victim);
+                    cmb_process_interrupt(victim, CMB_PROCESS_PREEMPTED, INT64_MAX);
                 }
                 else {
                     /* You take what you need, and you leave the rest */
@@ -492,6 +494,10 @@ int64_t cmi_pool_acquire_inner(struct cmb_resourcepool *rpp,
                     cmb_logger_info(stdout,
                                     "Success, got %" PRIu64 " from %s, put back %" PRIu64,
                                     loot, victim->name, surplus);
+
+                    /* Notify the victim, see above */
+                    cmi_process_cancel_awaiteds(victim);
+                    cmb_process_interrupt(victim, CMB_PROCESS_PREEMPTED, INT64_MAX);
 
                     /* In case someone else can use the leftovers */
                     cmb_resourceguard_signal(&(rpp->guard));
